@@ -2501,6 +2501,14 @@ impl Default for EnvironmentData {
 pub struct JsMapKey(pub JsValue);
 
 impl JsMapKey {
+    /// Key as it is stored by Map.prototype.set / Set.prototype.add: -0 is normalised to +0
+    pub fn normalized(value: JsValue) -> Self {
+        match value {
+            JsValue::Number(n) if n == 0.0 => JsMapKey(JsValue::Number(0.0)),
+            other => JsMapKey(other),
+        }
+    }
+
     /// Check SameValueZero equality (used by Map/Set for key comparison)
     fn same_value_zero(a: &JsValue, b: &JsValue) -> bool {
         match (a, b) {
